@@ -335,6 +335,23 @@ pub fn tape_passes(mut best: Vec<u16>, fails: &dyn Fn(&[u16]) -> bool, budget: u
     best
 }
 
+/// Isolated stages (`Profile::Isolated`) run in a child process that writes the tape it is
+/// about to evaluate to `$VERIF_CURRENT_DIR/cur-<worker>.json`: if the child dies (stack
+/// overflow, abort) the parent knows which cases were running.
+fn record_current(dir: &Option<std::path::PathBuf>, worker: usize, tape: Option<&[u16]>) {
+    if let Some(d) = dir {
+        let path = d.join(format!("cur-{worker}.json"));
+        match tape {
+            Some(t) => {
+                let _ = std::fs::write(&path, serde_json::to_string(&json!({ "tape": t })).unwrap());
+            }
+            None => {
+                let _ = std::fs::remove_file(&path);
+            }
+        }
+    }
+}
+
 pub struct RunOpts {
     pub seed: u64,
     pub cases: u64,
@@ -357,6 +374,8 @@ pub fn run_property(prop: &dyn Property, opts: &RunOpts, golden: &[Vec<u16>]) ->
     let total = Mutex::new(Stats::default());
     let per_worker = opts.cases / workers as u64;
     let extra = opts.cases % workers as u64;
+    let current_dir: Option<std::path::PathBuf> = std::env::var_os("VERIF_CURRENT_DIR").map(std::path::PathBuf::from);
+    let current_dir = &current_dir;
 
     std::thread::scope(|scope| {
         // watchdog
@@ -435,7 +454,9 @@ pub fn run_property(prop: &dyn Property, opts: &RunOpts, golden: &[Vec<u16>]) ->
                         (tree.current(), Some(tree))
                     };
                     *watch.slots[w].lock().unwrap() = Some((Instant::now(), tape.clone()));
+                    record_current(current_dir, w, Some(&tape));
                     let rep = prop.eval(&tape);
+                    record_current(current_dir, w, None);
                     *watch.slots[w].lock().unwrap() = None;
                     stats.cases += 1;
                     stats.evaluations += rep.evaluations;
@@ -464,17 +485,29 @@ pub fn run_property(prop: &dyn Property, opts: &RunOpts, golden: &[Vec<u16>]) ->
                         let slot = &watch.slots[w];
                         let fails = |t: &[u16]| -> bool {
                             *slot.lock().unwrap() = Some((Instant::now(), t.to_vec()));
+                            record_current(current_dir, w, Some(t));
                             let r = prop
                                 .eval(t)
                                 .failure
                                 .map(|x| x.signature == sig)
                                 .unwrap_or(false);
+                            record_current(current_dir, w, None);
                             *slot.lock().unwrap() = None;
                             r
                         };
+                        // slow cases (huge universes) get a smaller shrinking budget: about 90 s
+                        // per shrinking stage; this affects how small the replay file gets, never
+                        // whether the violation is reported
+                        let t_eval = {
+                            let t0 = Instant::now();
+                            let _ = fails(&tape);
+                            t0.elapsed().as_secs_f64().max(1e-6)
+                        };
+                        let timed = ((90.0 / t_eval) as usize).max(60);
+                        let budget = prop.shrink_budget().min(timed);
                         let min = match tree {
-                            Some(tree) => shrink(tree, tape.clone(), &fails, prop.shrink_budget()),
-                            None => tape_passes(tape.clone(), &fails, prop.shrink_budget()),
+                            Some(tree) => shrink(tree, tape.clone(), &fails, budget),
+                            None => tape_passes(tape.clone(), &fails, budget),
                         };
                         // structural minimisation of the decoded case
                         let case = prop.decode_struct(&min).map(|sc| {
@@ -489,7 +522,7 @@ pub fn run_property(prop: &dyn Property, opts: &RunOpts, golden: &[Vec<u16>]) ->
                                 r
                             };
                             if sfails(&sc) {
-                                minimize(sc, &sfails, 5000)
+                                minimize(sc, &sfails, 5000.min(timed))
                             } else {
                                 sc
                             }
